@@ -13,7 +13,8 @@
 (* F1, F3, F4, F5, F6 and F16 of DESIGN.md are all disagreements between    *)
 (* this walk (as it was) and FoxMatch; the guards marked [Fn] below are the *)
 (* repairs.  The hostname walk (lookupByDomain) is modelled the same way,    *)
-(* with F2 and the hostname form of F1.                                     *)
+(* with F2, the hostname form of F1, and F18 (a Host with a slash is no      *)
+(* hostname: it is left to the path-only routes).                           *)
 (*                                                                          *)
 (* Positions are counts of characters already consumed (cm in the path,     *)
 (* cmn in the key of the current node), so "path[cm]" of the Go code is     *)
@@ -231,7 +232,8 @@ LookupHost(root, host, path) ==
 LookupRoot(root, host, path) ==
   IF root.c = <<>> THEN None
   ELSE IF Len(root.c) = 1 /\ root.c[1].k[1] = "/" THEN LookupPath(root.c[1], path)
-  ELSE LET byHost == IF host # <<>> THEN LookupHost(root, host, path) ELSE None IN
+  ELSE LET byHost == IF host # <<>> /\ (On("F18") => ~HasChar(host, "/"))                                   \* [F18]
+                      THEN LookupHost(root, host, path) ELSE None IN
        IF byHost.n # <<>> THEN byHost
        ELSE LET i == ChildIdx(root, "/") IN
             IF i = 0 THEN None ELSE LookupPath(root.c[i], path)
